@@ -76,6 +76,9 @@ static void bs_harness_init(void)
   BS_POSS = bs_poss;
   struct bs_solx_t bs_solx;
   BS_SOLX = bs_solx;
+  T bs_eps;
+  __CPROVER_assume(bs_eps > 0);
+  BS_EPSILON = bs_eps;
   bs_exc = 0;
 }
 #endif
